@@ -42,8 +42,13 @@ func genCase(t *rapid.T) Case {
 	if rapid.IntRange(0, 2).Draw(t, "res") == 0 {
 		c.Resolvers = append(c.Resolvers, g.GenResolver(t))
 	}
+	vx.Lighten(weightLimit, append([]*vx.Node{c.Root}, c.Envs...)...)
 	return c
 }
+
+// weightLimit bounds (number of expressions)! x product of their reference counts, see vx.Lighten: evaluation has
+// no memo, heavier graphs finish only after minutes (observed: 34 references over 5 settings, 60 s of CPU)
+const weightLimit = 20000
 
 func unpackField(c *ucfg.Config, key string, opts []ucfg.Option) (interface{}, error) {
 	typ := reflect.StructOf([]reflect.StructField{{Name: "V", Type: reflect.TypeOf((*interface{})(nil)).Elem(), Tag: reflect.StructTag(fmt.Sprintf(`config:"%s"`, key))}})
@@ -532,6 +537,7 @@ func genWild(t *rapid.T) Case {
 	if rapid.IntRange(0, 3).Draw(t, "res") == 0 {
 		c.Resolvers = append(c.Resolvers, g.GenResolver(t))
 	}
+	vx.Lighten(weightLimit, append([]*vx.Node{c.Root}, c.Envs...)...)
 	return c
 }
 
